@@ -32,14 +32,14 @@ def bounds(tier):
             "pack name": "every shipped pack name (with the empty snapshot name), 'inYT' otherwise",
             "data line": "every byte value for one element (symbolic), whole blocks concretely",
             "traffic log": "first segment 30/39/48 bytes, second 39/41, then 39; a block with both quote characters, "
-                           "backslashes and every pair of them; no '[' byte (see the bracket finding)",
+                           "backslashes and every pair of them, and bracketed runs ('[]', '[a]', \"['0x5', '0x6']\", one in the last segment)",
             "shipped files": "all snapshot files under tests/snapshots"}
 
 
 ASSUMPTIONS = [
     "the log line prefix is the logging format of the shipped snapshot files ('<date> <time>,<ms> geckolib.utils.shell INFO ')",
     "traffic-log clause for one pseudo-random block per run (VERIF_SEED-independent, fixed seed) seeded with every pair "
-    "of quote/backslash bytes; blocks containing '[' are excluded (bracket finding)",
+    "of quote/backslash bytes and with bracketed runs",
     "a snapshot name long enough to embed a whole keyword line ('Snapshot (', 'Config version 1') is outside the bound",
 ]
 SITES = ["hdr.*", "dat.*", "log.*", "file.*"]
@@ -198,8 +198,10 @@ def traffic_log(sx):
     import random
     rnd = random.Random(7)
     # both quote characters, backslashes and every pair of them occur (every full segment also has 0x27 as its
-    # length byte); '[' is kept out: a '[...]' run inside a packet is the bracket finding of the header clause
-    raw = bytearray(b if b != 0x5b else 0x41 for b in (rnd.randrange(256) for _ in range(1024)))
+    # length byte); bracketed runs that look like (parts of) a hex list occur too
+    raw = bytearray(rnd.randrange(256) for _ in range(1024))
+    for off, run in ((500, b"[]"), (520, b"[a]"), (560, b"[\x00]"), (600, b"['0x5']"), (640, b"['0x5', '0x6']"), (1015, b"['0x41']")):
+        raw[off:off + len(run)] = run
     for off, pair in ((5, (0x5c, 0x27)), (45, (0x27, 0x5c)), (100, (0x5c, 0x5c)), (200, (0x27, 0x27)), (77, (0x5c, 0x78)),
                       (300, (0x22, 0x27)), (340, (0x5c, 0x22)), (400, (0x22, 0x22))):
         raw[off], raw[off + 1] = pair
